@@ -170,6 +170,10 @@ def c10(work, tier, seed):
             for a in ("openid", "ntlm"):
                 add(ep, cls, cfg(a), "legacy")
         elif ep == "authorization":
+            if cls == "basic-authservice-away":
+                add(ep, cls, dict(cfg("local", tls=True), authAway=True))
+                add(ep, cls, dict(cfg("ntlm"), authAway=True))
+                continue
             add(ep, cls, cfg("ntlm"))
             add(ep, cls, cfg("local", tls=True))
             add(ep, cls, cfg("kerberos"))
